@@ -18,6 +18,7 @@ T = TapeRecorder
 KINDS = ['op_ok', 'op_raises', 'op_interrupt', 'op_interrupt_in_body', 'op_discarded', 'op_discard_in_body', 'op_sampled_out',
          'op_capture_failure', 'op_save_failure', 'op_forced', 'op_threaded', 'op_extractor_raises', 'op_forced_then_discarded',
          'op_disables_recording_midway', 'op_outputs_then_discarded', 'op_discard_abort_raises',
+         'op_discarded_then_forced', 'op_skipped_class_forces', 'op_disabled_then_forced', 'force_while_idle', 'op_unusable_sampling_rate',
          'replay_ok', 'replay_missing_id', 'replay_missing_key', 'replay_fn_raises', 'replay_interrupted', 'replay_raises_in_op',
          'replay_recording_without_duration']
 
@@ -260,6 +261,11 @@ class SkipRun(Exception):
 
 
 def history_item(run, tape, kind, recorder, spy, store, base_spec, base):
+    if kind == 'force_while_idle':
+        # forced sampling is asked for while nothing is being recorded (between operations, from a worker that outlived its
+        # operation): there is no current recording to keep, the request must not stick to the next one
+        recorder.force_sample_recording()
+        return 'force requested while idle'
     if kind.startswith('op_'):
         spec = small_spec(tape, run)
         ensure_io(spec)
@@ -297,6 +303,20 @@ def history_item(run, tape, kind, recorder, spy, store, base_spec, base):
             spy.abort_raises = True
         elif kind == 'op_disables_recording_midway':
             spec.body.insert(tape.draw(len(spec.body) + 1), ['disable'])
+        elif kind == 'op_discarded_then_forced':
+            pos = tape.draw(len(spec.body) + 1)
+            spec.body.insert(pos, ['discard'])
+            spec.body.insert(pos + 1 + tape.draw(len(spec.body) - pos), ['force'])
+        elif kind == 'op_skipped_class_forces':
+            spec.op.params = {'skipped': True}
+            spec.body.insert(tape.draw(len(spec.body) + 1), ['force'])
+        elif kind == 'op_disabled_then_forced':
+            pos = tape.draw(len(spec.body) + 1)
+            spec.body.insert(pos, ['disable'])
+            spec.body.insert(pos + 1 + tape.draw(len(spec.body) - pos), ['force'])
+        elif kind == 'op_unusable_sampling_rate':
+            # a configuration mistake: whatever it does to this operation, the recorder is idle afterwards
+            spec.op.params = {'sampling_rate': tape.choice([None, '0.25'])}
         elif kind == 'op_capture_failure':
             R.place_fault(spec, st, tape.choice(['handler_raises', 'key_unbuildable']), run)
         elif kind == 'op_save_failure':
